@@ -165,6 +165,17 @@ def run(tier, seed):
                            'CREATE TABLE s1.[T 2] ([Id] int, "b" int CHECK ("b" > 1), `c` int, CONSTRAINT "Pk 1" PRIMARY KEY ([Id], `c`));\nALTER TABLE s1.[T 2] ADD CONSTRAINT "Fk 1" FOREIGN KEY ("b") REFERENCES "o" ("x");\n',
                            'CREATE TABLE `t3` (`a` int PRIMARY KEY CHECK (`a` > 0), "b" int REFERENCES [o] ([x]), PRIMARY KEY (`a`));\n']):
         inputs.append((f"special:delimited{i}", t, {}, []))
+        inputs.append((f"special:delimited-compact{i}", t.replace(", ", ","), {}, []))       # no blank after the separators
+    for i, t in enumerate(['CREATE TABLE orders (id int NOT NULL,"order" int,name varchar(10),PRIMARY KEY (id,"order"));\n',
+                           'CREATE TABLE "o2" ("id" int NOT NULL,"k2" int NOT NULL,"name" varchar(10),PRIMARY KEY ("id","k2"),UNIQUE ("name"));\n',
+                           'CREATE TABLE o3 (\nid int NOT NULL,\n"k2" int,\n`k3` int,\nPRIMARY KEY (id,\n"k2",\n`k3`)\n);\n']):
+        inputs.append((f"special:compact-keys{i}", t, {}, []))
+    # key clauses of every spelling: the key list holds column names only (no ASC / DESC / CLUSTERED words)
+    for i, kw_ in enumerate(["PRIMARY KEY", "PRIMARY KEY CLUSTERED", "PRIMARY KEY NONCLUSTERED", "CONSTRAINT pk1 PRIMARY KEY", "CONSTRAINT pk1 PRIMARY KEY CLUSTERED",
+                             "CONSTRAINT [pk 1] PRIMARY KEY NONCLUSTERED"]):
+        for cols_ in ("(a)", "(a, b)", "(a ASC)", "(a ASC, b DESC)", "([a] ASC, [b] DESC)", "(a DESC, b)"):
+            names_ = "[a] int NOT NULL, [b] int NOT NULL" if "[" in cols_ else "a int NOT NULL, b int NOT NULL"
+            inputs.append((f"special:key{i}", f"CREATE TABLE tk ({names_}, c varchar(5), {kw_} {cols_});\n", {}, []))
     tys = ["int", "decimal(10,2)", "numeric(12,4)", "number(8,4)", "float", "varchar(10)", "double precision", "number(*,2)"]
     dfs = ["0", "5", "-1", "0.00", "1.5", "+2.50", "-0.2000", "1e5", "'x'", "'0.00'", "NULL", "CURRENT_TIMESTAMP", "(1.25)", "now()", "TRUE", "12345678901234567890", ".5"]
     for i, ty in enumerate(tys):
